@@ -286,3 +286,27 @@ package zip
 //@     invariant len(validSizes) == len(validFiles) && (forall k int :: 0 <= k && k < len(validFiles) ==> validFiles[k] != nil && FILEOKNAME(validFiles[k].Path()) && 0 <= validSizes[k] && validSizes[k] <= MaxZipFile)
 //@     decreases len(validFiles) - @idx
 //@   props C05
+
+//@ # ---------- the directory walk mirrors the file check's omission rules (C17) ----------
+//@ # what the walk callback does with one entry, at its return statements in source order: 2 vendored file or
+//@ # directory entry (omitted, the walk goes on); 4 VCS metadata directory and 5 nested module (a directory holding
+//@ # a go.mod that is not itself a directory): omitted and not descended into; 7 irregular file omitted; 8 regular
+//@ # file listed under its slash-separated path relative to the root
+//@ func listFilesInDir$1
+//@   requires info != nil || err != nil
+//@   modifies omitted, files, []FileError, []File
+//@   allocates
+//@   ensures site 2 [C17] walk_vendored: VENDORED(slashPath, vers) && result == nil && len(omitted) == old(len(omitted)) + 1 && omitted[len(omitted)-1].Path == slashPath && omitted[len(omitted)-1].Err == errVendored && len(files) == old(len(files))
+//@   ensures site 4 [C17] walk_vcs_dir: !VENDORED(slashPath, vers) && info.IsDir() && filePath != dir && (filepath.Base(filePath) == ".bzr" || filepath.Base(filePath) == ".git" || filepath.Base(filePath) == ".hg" || filepath.Base(filePath) == ".svn") && result == filepath.SkipDir && omitted[len(omitted)-1].Err == errVCS && len(files) == old(len(files))
+//@   ensures site 5 [C17] walk_nested_module: !VENDORED(slashPath, vers) && info.IsDir() && filePath != dir && !goModInfo.IsDir() && result == filepath.SkipDir && omitted[len(omitted)-1].Err == errSubmoduleDir && omitted[len(omitted)-1].Path == slashPath && len(files) == old(len(files))
+//@   ensures site 6 [C17] walk_plain_dir: info.IsDir() && result == nil && len(files) == old(len(files)) && len(omitted) == old(len(omitted))
+//@   ensures site 7 [C17] walk_irregular: !VENDORED(slashPath, vers) && !info.IsDir() && !info.Mode().IsRegular() && result == nil && omitted[len(omitted)-1].Err == errNotRegular && len(files) == old(len(files))
+//@   ensures site 8 [C17] walk_regular_file: !VENDORED(slashPath, vers) && !info.IsDir() && info.Mode().IsRegular() && result == nil && len(files) == old(len(files)) + 1 && len(omitted) == old(len(omitted)) && slashPath == filepath.ToSlash(relPath)
+//@   props C17
+//@ # the walk starts at the directory given, and the go version is read from that directory's go.mod
+//@ func listFilesInDir
+//@   modifies *
+//@   allocates
+//@   call os.ReadFile requires [C17] version_from_root_gomod_of_dir: arg_name == JOIN2(dir, "go.mod")
+//@   call filepath.Walk requires [C17] walks_the_given_dir: arg_root == dir
+//@   props C17
